@@ -178,6 +178,9 @@ func (e *Engine) RunContracts(pc *PropertyCheck, timeout time.Duration, maxPaths
 	}()
 	for _, jb := range jobs {
 		fn, ct := jb.fn, jb.ct
+		for _, a := range ct.Assumes {
+			pc.Assumed = append(pc.Assumed, "state invariant assumed at entry of "+shortPkg(fn)+"."+sym.FuncKey(fn)+" (not proved inductively): "+a.Src)
+		}
 		fkey := sym.FuncKey(fn)
 		if ct.Iface {
 			fkey = "iface:" + ct.Key + "@" + fkey
